@@ -37,29 +37,24 @@ func zzStubKdf02(length int, x ...[]byte) ([]byte, bool) {
 var zzKdfZero int
 var zzKdfEncrypting bool
 
-func zzQ2() int64 {
-	if vTier() == 1 {
-		return 65537
-	}
-	return 257
-}
+func zzQ2() int64 { return 257 }
 
 // H02-roundtrip: for every non-empty plaintext, Decrypt(Encrypt(m)) == m in both component
 // orders, the ciphertext starts with 04 and has length 1+64+32+len(m).
 //
 //verif:property C02
 //verif:expect-reach end
-//verif:bound abstract prime-order group of order 257 (quick) / 65537 (thorough) in place of the curve; d in [1,q-2]; plaintext length 1..2 (quick) / each of 1..33 (thorough), content symbolic; both orders; SM3 and the KDF arbitrary functions of their inputs (an all-zero keystream at most once per run, so Encrypt's retry loop runs at most twice); nonce bytes symbolic
+//verif:bound abstract prime-order group of order 257 in place of the curve (order 65537 was tried for the thorough tier: a feasibility query comes back unknown after 600 s); d in [1,q-2]; plaintext length 1..2 (quick) / each of {1,2,3,16,31,32,33} (thorough), content symbolic; both orders; SM3 and the KDF arbitrary functions of their inputs (an all-zero keystream at most once per run, so Encrypt's retry loop runs at most twice); nonce bytes symbolic
 //verif:outside the real curve arithmetic (C03); ASN.1 form (reflection-driven encoding/asn1)
 //verif:stub-symbolic github.com/tjfoc/gmsm/sm3.Sm3Sum zzStubSm3Sum02
 //verif:stub-symbolic github.com/tjfoc/gmsm/sm2.kdf zzStubKdf02
 //verif:unwind 200
 func zzH_c02_roundtrip() {
-	maxL := 2
+	Ls := []int{1, 2}
 	if vTier() == 1 {
-		maxL = 33
+		Ls = []int{1, 2, 3, 16, 31, 32, 33}
 	}
-	L := 1 + vChoice("L", maxL)
+	L := Ls[vChoice("L", len(Ls))]
 	mode := vChoice("mode", 2)
 	m := vBytes("m", L, L)
 	if vNative() {
